@@ -164,6 +164,28 @@ def run_case(case, r):
                 break
         else:
             r.ok()
+        # --- the multi-index layout of the faces of axis d: face_index[d] has the grid's shape with one
+        # layer less along d, and its entry at multi-index idx is the face between cells idx and idx + e_d
+        fi = np.asarray(g.face_index[d])
+        want_fs = tuple(shape[a] - (1 if a == d else 0) for a in range(dim))
+        okfi = fi.shape == want_fs and tuple(int(x) for x in g.faces_shape[d]) == want_fs
+        if okfi:
+            for idx in np.ndindex(*want_fs):
+                f_ = int(fi[idx])
+                up = tuple(np.array(idx) + e)
+                if not (0 <= f_ < nf and pos.get(int(conn[f_, 0])) == idx and pos.get(int(conn[f_, 1])) == up):
+                    okfi = False
+                    break
+        r.check(okfi, cell("face-layout"), "face_index[d] lays the faces of axis d out on the grid: the face at multi-index idx joins cells idx and idx + e_d", axis=d, got_shape=list(fi.shape), want_shape=list(want_fs))
+        # interior faces of an axis: those away from the outer boundary in every tangential direction
+        # (1-D: away from the two end cells)
+        if okfi:
+            if dim == 1:
+                want_int = {int(fi[(k,)]) for k in range(1, want_fs[0] - 1)}
+            else:
+                want_int = {int(fi[idx]) for idx in np.ndindex(*want_fs) if all(1 <= idx[t] <= want_fs[t] - 2 for t in range(dim) if t != d)}
+            got_int = {int(x) for x in np.asarray(g.interior_faces[d], dtype=int).ravel().tolist()}
+            r.check(got_int == want_int, cell("interior-faces"), "interior faces of an axis are the faces away from the outer boundary in every tangential direction", axis=d, got=sorted(got_int), want=sorted(want_int))
         # --- interior / exterior partition
         inter = np.asarray(g.interior_faces[d], dtype=int).ravel().tolist()
         exter = np.asarray(g.exterior_faces[d], dtype=int).ravel().tolist()
